@@ -31,6 +31,24 @@ CHECKS.update({
          "DESIGN.md §4 C19"),
 })
 
+CHECKS.update({
+ "C02": ("E1-choice-tree",
+         "bounded-exhaustive enumeration of model programs x token-level layouts compiled by the real compiler; observed AST compared field by field with the generating model",
+         "Programs are derived from a generative model of the grammar (construct sequences up to a depth bound, complete sub-families for type expressions, enumerator values, integer spellings, string escapes, attribute forms, per-gap separator assignments) and rendered under layout strategies; the AST reached through the public API must equal the model for every program and every layout. Exhaustive below the bounds; the expected result is known by construction, independent of slicec's lexer/parser.",
+         "trusted: the model/printer/observer in mc/src/model; identifiers are short ASCII words; counts/depths beyond the bounds are not covered",
+         "DESIGN.md §4 C02"),
+ "C09": ("E1-choice-tree",
+         "bounded-exhaustive enumeration of model programs x layouts; every AST span is checked against token positions recorded by the printer (relations from the statement)",
+         "For every program and layout of the C02 families every Symbol's span is one obligation, checked against the positions the printer recorded for the tokens of that element (start at first token of the declaration proper, name included, end on a token of the element, exact spans for identifiers/types/attributes, doc parts within the comment). Diagnostic spans and snippet rendering are checked on the violation catalogue.",
+         "trusted: the printer's position recording (rows advance at LF, columns count characters); relations are deliberately weaker than slicec's current conventions where the statement leaves room",
+         "DESIGN.md §4 C09"),
+ "C20": ("E1-choice-tree",
+         "bounded-exhaustive enumeration of model programs walked with a recording visitor; callback sequence compared with the sequence derived from the model",
+         "Every file of every program of the C02 families is walked separately with a recording visitor; the recorded sequence must equal the model-derived one (order, containers before contents, type references right after their owner then nested references depth-first, every declared entity exactly once, nothing foreign).",
+         "trusted: the model-derived expected sequence; nested references reached through an alias of an anonymous type are optional events (documented softening)",
+         "DESIGN.md §4 C20"),
+})
+
 NOT_YET = {}
 
 def main():
